@@ -74,6 +74,10 @@ def main():
         if cond.setup:
             cond.setup()
         STATE.cond = cond
+        # every path starts from the state a fresh interpreter would have (see vlib/pristine.py)
+        from vlib import pristine
+        pristine.snapshot()
+        STATE.path_hooks.insert(0, pristine.restore)
 
         stats = collections.Counter()
         opts = AnalysisOptionSet(
